@@ -29,7 +29,7 @@ ASSUMPTIONS = [
 ]
 COMPONENTS = {"real": ["FutureChain", "Future subclasses", "Exchange.__getitem__", "_Allocation", "Rebalancing", "Broker", "TradingEnv", "Transmitter"],
               "harness": ["calendar-free lead model", "independent ledger"], "stub": []}
-PROBE_FLOORS = {"roll_executed": 122, "step_exactly_on_last_trading_instant": 50, "short_position_rolled": 55,
+PROBE_FLOORS = {"resolution_refused_beyond_the_listed_contracts": 300, "roll_executed": 122, "step_exactly_on_last_trading_instant": 50, "short_position_rolled": 55,
                 "month_offset_positive": 40, "roll_with_spread": 63, "expiry_passed_flat": 100, "explicit_contract_list": 31,
                 "foreign_clock_write": 31, "single_event_days_with_roll": 25, "roll_of_position_below_threshold": 25, "roll_of_position_worth_less_than_the_fee": 5, "quotes_addressed_to_the_chain_across_a_roll": 15, "roll_of_position_below_1e-6_contracts": 8}
 
@@ -395,6 +395,28 @@ def execute(scenario):
                     probe("expiry_passed_flat")
             if violations:
                 break
+    if not violations:
+        # beyond the listed contracts: once no listed contract has a last-trading instant strictly later than the time
+        # asked about (or the month offset points past the end of the list) there is nothing the chain could resolve to -
+        # refusing is fine, handing out a contract that is past its last-trading instant (or a nearer month) is not
+        from datetime import timedelta as _td
+        asks = [ltd[-1], ltd[-1] + _td(microseconds=1), ltd[-1] + _td(days=30)]
+        if offset > 0 and len(ltd) > offset:
+            asks += [ltd[-1 - offset], ltd[-1 - offset] + _td(hours=1)]
+        for t in asks:
+            want = lead_index(ltd, t, offset)
+            if want is not None and want < len(mem):
+                continue
+            try:
+                got = chain.lead_contract(t)
+            except Exception:
+                probe("resolution_refused_beyond_the_listed_contracts")
+                continue
+            gs = getattr(got, "symbol", str(got))
+            jj = syms.index(gs) if gs in syms else None
+            violate("lead_resolution", "asked at {}, where no listed contract qualifies (offset {}), the chain resolves to {} (last trading {})".format(
+                t, offset, gs, ltd[jj] if jj is not None else "?"), kind="past_ltd" if jj is not None and t >= ltd[jj] else "other", via="beyond_list")
+            break
     if offset > 0:
         probe("month_offset_positive")
     if scenario.get("meta", {}).get("lead_only") and rolls:
